@@ -70,6 +70,8 @@ const (
 	formAssign
 	formReturn
 	formIfInit
+	formDelete // a dead closure binding or its `_ = name` keep-alive
+	formCond   // a call inside an if condition, hoisted under the guard of its evaluation
 )
 
 type inliner struct {
@@ -81,6 +83,8 @@ type inliner struct {
 	stack     []ast.Node
 	siteStack []*inlSite
 	subst     map[types.Object]rope
+	exprRepl  map[ast.Node]rope
+	quiet     map[*FuncInfo]bool
 	infoOf    map[string]*types.Info
 	asgCount  map[*FuncInfo]map[types.Object]int
 	dest      *ast.File                       // file the text being produced lands in
@@ -116,6 +120,12 @@ func (in *inliner) textOf(n ast.Node) rope {
 					return false
 				}
 			}
+		}
+		if r, ok := in.exprRepl[m]; ok {
+			out = append(out, in.text(file, cur, m.Pos())...)
+			out = append(out, r...)
+			cur = m.End()
+			return false
 		}
 		if id, ok := m.(*ast.Ident); ok && len(in.subst) > 0 {
 			if info := in.infoOf[file]; info != nil {
@@ -618,6 +628,92 @@ func (in *inliner) assigns(fn *FuncInfo) map[types.Object]int {
 	return m
 }
 
+// quietFunc: the function stores only into its own local variables (no field, element or
+// pointer stores, no sends) and calls only builtins, conversions, logging and quiet functions.
+func (in *inliner) quietFunc(fi *FuncInfo, depth int) bool {
+	if depth > 2 || fi.Decl.Body == nil {
+		return false
+	}
+	if v, ok := in.quiet[fi]; ok {
+		return v
+	}
+	in.quiet[fi] = false
+	info := fi.Info()
+	ok := true
+	ast.Inspect(fi.Decl.Body, func(n ast.Node) bool {
+		switch t := n.(type) {
+		case *ast.AssignStmt:
+			for _, l := range t.Lhs {
+				if _, isId := ast.Unparen(l).(*ast.Ident); !isId {
+					ok = false
+				} else if v, isVar := info.ObjectOf(ast.Unparen(l).(*ast.Ident)).(*types.Var); isVar && v.Parent() == v.Pkg().Scope() {
+					ok = false // package-level variable
+				}
+			}
+		case *ast.IncDecStmt:
+			if _, isId := ast.Unparen(t.X).(*ast.Ident); !isId {
+				ok = false
+			}
+		case *ast.SendStmt, *ast.GoStmt, *ast.DeferStmt:
+			ok = false
+		case *ast.CallExpr:
+			if id, isId := ast.Unparen(t.Fun).(*ast.Ident); isId {
+				if _, b := info.Uses[id].(*types.Builtin); b {
+					if id.Name == "delete" || id.Name == "copy" || id.Name == "clear" {
+						ok = false
+					}
+					return true
+				}
+			}
+			if info.Types[t.Fun].IsType() {
+				return true
+			}
+			switch lastSeg(calleeName(info, t)) {
+			case "Info", "Error", "V", "WithValues", "WithName", "Infof", "Errorf", "Sprintf", "String", "Debugf", "Warnf", "Is", "As", "Before", "After", "Equal", "IsZero", "Sub", "Add", "Unix":
+				return true
+			}
+			c := in.p.FuncOf(Callee(info, t))
+			if c == nil || !in.quietFunc(c, depth+1) {
+				ok = false
+			}
+		}
+		return ok
+	})
+	in.quiet[fi] = ok
+	return ok
+}
+
+// exprPure: evaluating x twice is harmless (no calls except builtins, conversions and methods
+// with an empty write set).
+func (in *inliner) exprPure(info *types.Info, x ast.Expr) bool {
+	ok := true
+	ast.Inspect(x, func(n ast.Node) bool {
+		switch t := n.(type) {
+		case *ast.FuncLit:
+			ok = false
+		case *ast.UnaryExpr:
+			if t.Op == token.ARROW {
+				ok = false
+			}
+		case *ast.CallExpr:
+			if id, isId := ast.Unparen(t.Fun).(*ast.Ident); isId {
+				if _, b := info.Uses[id].(*types.Builtin); b && (id.Name == "len" || id.Name == "cap") {
+					return true
+				}
+			}
+			if info.Types[t.Fun].IsType() {
+				return true
+			}
+			fi := in.p.FuncOf(Callee(info, t))
+			if fi == nil || fi.Decl.Recv == nil || !in.p.pureMethod(fi, 0) {
+				ok = false
+			}
+		}
+		return ok
+	})
+	return ok
+}
+
 func typeStr(t types.Type, q types.Qualifier) string { return types.TypeString(t, q) }
 
 // emitSite returns the replacement of the site's statement; import additions and usage marks
@@ -643,6 +739,10 @@ func (in *inliner) emitSite(s *inlSite) (rope, bool) {
 }
 
 func (in *inliner) emitSite0(s *inlSite) (rope, bool) {
+	if s.form == formDelete {
+		in.used[s.id] = true
+		return glue("", s.stmt.Pos(), s.id), true
+	}
 	ft, body, recv := in.calleeBody(s)
 	var self ast.Node = body
 	for _, n := range in.stack {
@@ -779,6 +879,9 @@ func (in *inliner) emitSite0(s *inlSite) (rope, bool) {
 					return true
 				}
 				if fi := in.p.FuncOf(Callee(info, t)); fi != nil && fi.Decl.Recv != nil && in.p.pureMethod(fi, 0) {
+					return true
+				}
+				if fi := in.p.FuncOf(Callee(info, t)); fi != nil && in.quietFunc(fi, 0) {
 					return true
 				}
 				callsQuiet = false
@@ -1033,6 +1136,27 @@ func (in *inliner) emitSite0(s *inlSite) (rope, bool) {
 	var pre rope // declarations in the caller's scope
 	var post rope
 	wrapOuter := false
+	var guard []guardLit
+	if s.form == formCond {
+		is := s.stmt.(*ast.IfStmt)
+		if sig.Results().Len() != 1 {
+			return nil, false
+		}
+		var ok bool
+		guard, ok = guardOf(is.Cond, s.call)
+		if !ok {
+			return nil, false
+		}
+		for _, gl := range guard {
+			if !in.exprPure(info, gl.x) {
+				return nil, false
+			}
+		}
+		tmp := fmt.Sprintf("inl_c%d", s.id)
+		lhs = []string{tmp}
+		pre = append(pre, g("var %s %s\n", tmp, typeStr(sig.Results().At(0).Type(), q))...)
+		wrapOuter = true
+	}
 	switch s.form {
 	case formAssign, formIfInit:
 		as, _ := s.stmt.(*ast.AssignStmt)
@@ -1103,7 +1227,28 @@ func (in *inliner) emitSite0(s *inlSite) (rope, bool) {
 	if wrapOuter {
 		out = append(out, g("{\n")...)
 	}
+	if s.form == formCond {
+		if is := s.stmt.(*ast.IfStmt); is.Init != nil {
+			out = append(out, in.textOf(is.Init)...)
+			out = append(out, g("\n")...)
+		}
+	}
 	out = append(out, pre...)
+	if len(guard) > 0 {
+		out = append(out, g("if ")...)
+		for i, gl := range guard {
+			if i > 0 {
+				out = append(out, g(" && ")...)
+			}
+			if !gl.pos {
+				out = append(out, g("!")...)
+			}
+			out = append(out, g("(")...)
+			out = append(out, in.exprText(gl.x)...)
+			out = append(out, g(")")...)
+		}
+		out = append(out, g(" {\n")...)
+	}
 	out = append(out, g("{\n")...)
 	for _, b := range binds {
 		out = append(out, g("var %s %s = ", b.name, b.typ)...)
@@ -1134,11 +1279,23 @@ func (in *inliner) emitSite0(s *inlSite) (rope, bool) {
 		out = append(out, in.conv(body.List, lhs, s)...)
 	}
 	out = append(out, g("}\n")...)
+	if len(guard) > 0 {
+		out = append(out, g("}\n")...)
+	}
 	out = append(out, post...)
-	if s.form == formIfInit {
+	if s.form == formIfInit || s.form == formCond {
 		is := s.stmt.(*ast.IfStmt)
 		out = append(out, g("if ")...)
-		out = append(out, in.exprText(is.Cond)...)
+		if s.form == formCond {
+			in.exprRepl[s.call] = g("%s", lhs[0])
+		}
+		condText := in.exprText(is.Cond)
+		delete(in.exprRepl, s.call)
+		out = append(out, condText...)
+		condText = nil
+		if false {
+			out = append(out, in.exprText(is.Cond)...)
+		}
 		out = append(out, g(" ")...)
 		out = append(out, in.textOf(is.Body)...)
 		if is.Else != nil {
@@ -1205,11 +1362,15 @@ func (in *inliner) findSites() {
 			}
 			return true
 		})
-		classify := func(st ast.Stmt) (*ast.CallExpr, int) {
+		type cand struct {
+			call *ast.CallExpr
+			form int
+		}
+		classify := func(st ast.Stmt) []cand {
 			switch t := st.(type) {
 			case *ast.ExprStmt:
 				if c, ok := t.X.(*ast.CallExpr); ok {
-					return c, formExpr
+					return []cand{{c, formExpr}}
 				}
 			case *ast.AssignStmt:
 				if len(t.Rhs) == 1 && (t.Tok == token.DEFINE || t.Tok == token.ASSIGN) {
@@ -1218,16 +1379,16 @@ func (in *inliner) findSites() {
 							switch ast.Unparen(l).(type) {
 							case *ast.Ident, *ast.SelectorExpr:
 							default:
-								return nil, 0
+								return nil
 							}
 						}
-						return c, formAssign
+						return []cand{{c, formAssign}}
 					}
 				}
 			case *ast.ReturnStmt:
 				if len(t.Results) == 1 {
 					if c, ok := t.Results[0].(*ast.CallExpr); ok {
-						return c, formReturn
+						return []cand{{c, formReturn}}
 					}
 				}
 			case *ast.IfStmt:
@@ -1235,69 +1396,193 @@ func (in *inliner) findSites() {
 					if c, ok := as.Rhs[0].(*ast.CallExpr); ok {
 						for _, l := range as.Lhs {
 							if _, ok := l.(*ast.Ident); !ok {
-								return nil, 0
+								return nil
 							}
 						}
-						return c, formIfInit
+						return []cand{{c, formIfInit}}
 					}
 				}
+				var out []cand
+				for _, c := range condCalls(t.Cond) {
+					out = append(out, cand{c, formCond})
+				}
+				return out
 			}
-			return nil, 0
+			return nil
+		}
+		// dead closure bindings: the variable is only defined and kept alive by `_ = name`
+		{
+			refs := map[*types.Var]int{}
+			keep := map[*types.Var][]ast.Stmt{}
+			defs := map[*types.Var]ast.Stmt{}
+			ast.Inspect(fn.Decl.Body, func(m ast.Node) bool {
+				switch t := m.(type) {
+				case *ast.AssignStmt:
+					if len(t.Lhs) == 1 && len(t.Rhs) == 1 {
+						if l, ok := t.Lhs[0].(*ast.Ident); ok {
+							if r, ok := t.Rhs[0].(*ast.Ident); ok && l.Name == "_" && t.Tok == token.ASSIGN {
+								if v, ok := info.Uses[r].(*types.Var); ok && closures[v] != nil {
+									keep[v] = append(keep[v], t)
+									refs[v]--
+								}
+							}
+							if v, ok := info.Defs[l].(*types.Var); ok && closures[v] != nil && t.Tok == token.DEFINE {
+								defs[v] = t
+							}
+						}
+					}
+				case *ast.DeclStmt:
+					if gd, ok := t.Decl.(*ast.GenDecl); ok && len(gd.Specs) == 1 {
+						if vs, ok := gd.Specs[0].(*ast.ValueSpec); ok && len(vs.Names) == 1 && len(vs.Values) == 1 {
+							if v, ok := info.Defs[vs.Names[0]].(*types.Var); ok && closures[v] != nil {
+								defs[v] = t
+							}
+						}
+					}
+				case *ast.Ident:
+					if v, ok := info.Uses[t].(*types.Var); ok && closures[v] != nil {
+						refs[v]++
+					}
+				}
+				return true
+			})
+			for v, d := range defs {
+				if refs[v] != 0 || assigned[v] != 1 || len(keep[v]) == 0 {
+					continue
+				}
+				for _, st := range append([]ast.Stmt{d}, keep[v]...) {
+					s := &inlSite{caller: fn, stmt: st, form: formDelete, id: len(in.list)}
+					in.list = append(in.list, s)
+					in.sites[st] = s
+				}
+			}
 		}
 		walkWithLits(fn.Decl.Body, func(m ast.Node, lits []*ast.FuncLit) {
 			st, ok := m.(ast.Stmt)
 			if !ok {
 				return
 			}
-			call, form := classify(st)
-			if call == nil {
-				return
-			}
-			s := &inlSite{caller: fn, stmt: st, call: call, form: form}
-			if len(lits) > 0 {
-				s.encl, _ = info.TypeOf(lits[len(lits)-1]).(*types.Signature)
-			} else {
-				s.encl, _ = fn.Obj.Type().(*types.Signature)
-			}
-			if id, ok := ast.Unparen(call.Fun).(*ast.Ident); ok {
-				if v, ok := info.Uses[id].(*types.Var); ok {
-					if fl := closures[v]; fl != nil && assigned[v] == 1 && !(fl.Pos() <= call.Pos() && call.End() <= fl.End()) && bodyOK(info, fl.Type, fl.Body) {
-						s.lit, s.litVar = fl, v
-					}
+			for _, cd := range classify(st) {
+				call, form := cd.call, cd.form
+				s := &inlSite{caller: fn, stmt: st, call: call, form: form}
+				if len(lits) > 0 {
+					s.encl, _ = info.TypeOf(lits[len(lits)-1]).(*types.Signature)
+				} else {
+					s.encl, _ = fn.Obj.Type().(*types.Signature)
 				}
-			}
-			if s.lit == nil {
-				obj := Callee(info, call)
-				ci := p.FuncOf(obj)
-				if ci == nil || ci.Pkg != fn.Pkg || ci == fn || (obj != nil && in.protected[obj.FullName()]) || isExported(ci.Decl.Name.Name) {
-					return
-				}
-				if ci.Decl.Recv != nil {
-					if len(ci.Decl.Recv.List) != 1 {
-						return
-					}
-					switch rt := ci.Decl.Recv.List[0].Type.(type) {
-					case *ast.IndexExpr, *ast.IndexListExpr:
-						return
-					case *ast.StarExpr:
-						if _, gen := rt.X.(*ast.IndexExpr); gen {
-							return
+				if id, ok := ast.Unparen(call.Fun).(*ast.Ident); ok {
+					if v, ok := info.Uses[id].(*types.Var); ok {
+						if fl := closures[v]; fl != nil && assigned[v] == 1 && !(fl.Pos() <= call.Pos() && call.End() <= fl.End()) && bodyOK(info, fl.Type, fl.Body) {
+							s.lit, s.litVar = fl, v
 						}
 					}
-					if _, isSel := ast.Unparen(call.Fun).(*ast.SelectorExpr); !isSel {
-						return
+				}
+				if s.lit == nil {
+					obj := Callee(info, call)
+					ci := p.FuncOf(obj)
+					if ci == nil || ci.Pkg != fn.Pkg || ci == fn || (obj != nil && in.protected[obj.FullName()]) || isExported(ci.Decl.Name.Name) {
+						continue
+					}
+					if ci.Decl.Recv != nil {
+						if len(ci.Decl.Recv.List) != 1 {
+							continue
+						}
+						generic := false
+						switch rt := ci.Decl.Recv.List[0].Type.(type) {
+						case *ast.IndexExpr, *ast.IndexListExpr:
+							generic = true
+						case *ast.StarExpr:
+							if _, gen := rt.X.(*ast.IndexExpr); gen {
+								generic = true
+							}
+						}
+						if _, isSel := ast.Unparen(call.Fun).(*ast.SelectorExpr); !isSel || generic {
+							continue
+						}
+					}
+					if !bodyOK(info, ci.Decl.Type, ci.Decl.Body) {
+						continue
+					}
+					s.callee = ci
+				}
+				if form == formCond {
+					// predicates made of if/return only are handled inside the fact engine; only
+					// helpers with statements are hoisted
+					_, body, _ := in.calleeBody(s)
+					simple := true
+					for _, bs := range body.List {
+						switch bs.(type) {
+						case *ast.IfStmt, *ast.ReturnStmt:
+						default:
+							simple = false
+						}
+					}
+					if simple {
+						continue
 					}
 				}
-				if !bodyOK(info, ci.Decl.Type, ci.Decl.Body) {
-					return
-				}
-				s.callee = ci
+				s.id = len(in.list)
+				in.list = append(in.list, s)
+				in.sites[st] = s
+				break
 			}
-			s.id = len(in.list)
-			in.list = append(in.list, s)
-			in.sites[st] = s
+			return
 		})
 	}
+}
+
+// condCalls lists, in evaluation order, the calls that sit on the boolean skeleton of a
+// condition (under &&, ||, !, parentheses and comparisons) — not inside other calls' arguments.
+func condCalls(x ast.Expr) []*ast.CallExpr {
+	switch t := x.(type) {
+	case *ast.ParenExpr:
+		return condCalls(t.X)
+	case *ast.UnaryExpr:
+		if t.Op == token.NOT {
+			return condCalls(t.X)
+		}
+	case *ast.BinaryExpr:
+		switch t.Op {
+		case token.LAND, token.LOR, token.EQL, token.NEQ, token.LSS, token.LEQ, token.GTR, token.GEQ:
+			return append(condCalls(t.X), condCalls(t.Y)...)
+		}
+	case *ast.CallExpr:
+		return []*ast.CallExpr{t}
+	}
+	return nil
+}
+
+type guardLit struct {
+	x   ast.Expr
+	pos bool
+}
+
+// guardOf returns the conjunction under which call is evaluated inside cond.
+func guardOf(cond ast.Expr, call *ast.CallExpr) ([]guardLit, bool) {
+	inside := func(x ast.Expr) bool { return x.Pos() <= call.Pos() && call.End() <= x.End() }
+	switch t := cond.(type) {
+	case *ast.ParenExpr:
+		return guardOf(t.X, call)
+	case *ast.UnaryExpr:
+		return guardOf(t.X, call)
+	case *ast.CallExpr:
+		return nil, t == call
+	case *ast.BinaryExpr:
+		if inside(t.X) {
+			return guardOf(t.X, call)
+		}
+		if inside(t.Y) {
+			g, ok := guardOf(t.Y, call)
+			switch t.Op {
+			case token.LAND:
+				return append([]guardLit{{t.X, true}}, g...), ok
+			case token.LOR:
+				return append([]guardLit{{t.X, false}}, g...), ok
+			}
+			return g, ok
+		}
+	}
+	return nil, false
 }
 
 // fileMap translates overlay offsets to original positions.
@@ -1324,7 +1609,7 @@ func (fm *fileMap) lookup(off int) (ovSeg, bool) {
 // overlay cannot be type-checked.
 func Normalise(p *Prog, o LoadOpts, protected map[string]bool) (*Prog, []string) {
 	in := &inliner{p: p, protected: protected, src: map[string][]byte{}, sites: map[ast.Stmt]*inlSite{},
-		imports: map[*ast.File]map[string]string{}, used: map[int]bool{}, subst: map[types.Object]rope{},
+		imports: map[*ast.File]map[string]string{}, used: map[int]bool{}, subst: map[types.Object]rope{}, exprRepl: map[ast.Node]rope{}, quiet: map[*FuncInfo]bool{},
 		infoOf: map[string]*types.Info{}, asgCount: map[*FuncInfo]map[types.Object]int{}}
 	for _, fn := range p.funcList {
 		name := in.fname(fn.File.Pos())
@@ -1465,7 +1750,7 @@ func Normalise(p *Prog, o LoadOpts, protected map[string]bool) (*Prog, []string)
 				callees[k] = v
 			}
 			for _, s := range in.list {
-				if in.used[s.id] {
+				if in.used[s.id] && s.form != formDelete {
 					callers[s.caller] = true
 					if s.callee != nil {
 						callees[s.callee.Key()] = true
